@@ -154,3 +154,160 @@ class iter_cus_in_section:
                   "value.offset_count > 0 or value.offsets == False"]
     ensures = ["block_off($B, parser, $n) >= len($B)"]
     may_raise = ["ELFParseError", "OverflowError"]
+
+
+BlockT = Rec(cu_offset=Nat, unit_length=Nat, is64=Int, offset_after_length=Nat, version=U16, address_size=U8,
+             segment_selector_size=U8, offset_count=U32, offset_table_offset=Nat)
+
+
+@contract(R, "RangeLists.iter_CU_range_lists_ex", props=["C07"])
+class iter_cu_range_lists_ex:
+    """the raw lists of one unit block: the first list follows the offset table (offset_count entries
+    of 4 bytes, 8 in the 64-bit format), each next list starts where the previous one ended, up to the
+    end of the block"""
+    params = dict(self=RLT, cu=BlockT)
+    ghost = {"$B": "self.stream.B", "$first": "cu.offset_table_offset + (8 if cu.is64 else 4) * cu.offset_count",
+             "$end": "cu.offset_after_length + cu.unit_length"}
+    yield_shape = ListOf(Rec(entry_offset=Nat, entry_type=CodeT(8), entry_length=Nat))
+    loops = {0: dict(invariant=["offset == lst_off($B, $first, $k)", "$k == $n"], variant="len($B) + 1 - offset")}
+    each_yield = ["lst_off($B, $first, $n) < $end",
+                  "len(value) == len(rnglist_at($B, lst_off($B, $first, $n)))",
+                  "forall(lambda j: value[j].entry_offset == rnglist_at($B, lst_off($B, $first, $n))[j].entry_offset"
+                  " and value[j].entry_type == rnglist_at($B, lst_off($B, $first, $n))[j].entry_type, 0, len(value))"]
+    ensures = ["lst_off($B, $first, $n) >= $end"]
+    may_raise = ["ELFParseError", "OverflowError"]
+
+
+ViewT = Rec('LocationViewPair', entry_offset=Nat, begin=Nat, end=Nat)
+
+
+@contract(L, "LocationLists._parse_locview_pairs", props=["C07"])
+class parse_locview_pairs:
+    """location view pairs (GNU): when the position is the offset of a view set, the pairs of ULEB128
+    numbers from there to the offset of the list they belong to; otherwise none"""
+    params = dict(self=LLT, locviews=DictOf(Nat))
+    ghost = {"$B": "self.stream.B", "$p": "self.stream.pos"}
+    returns = ListOf(ViewT)
+    loops = {0: dict(invariant=["self.stream.pos == view_off($B, $p, $k)", "len(pairs) == $k",
+                                "forall(lambda j: pairs[j].entry_offset == view_off($B, $p, j)"
+                                " and pairs[j].begin == hdr_field($B, self.structs.Dwarf_locview_pair, 'begin', view_off($B, $p, j))"
+                                " and pairs[j].end == hdr_field($B, self.structs.Dwarf_locview_pair, 'end', view_off($B, $p, j)), 0, $k)",
+                                "forall(lambda j: view_off($B, $p, j) < list_offset, 0, $k)"],
+                     shapes={"pairs": ListOf(ViewT)}, variant="len($B) + 1 - self.stream.pos")}
+    ensures = ["($p in locviews) or len(result) == 0",
+               "not ($p in locviews) or self.stream.pos == locviews[$p]",
+               "not ($p in locviews) or view_off($B, $p, len(result)) == locviews[$p]",
+               "forall(lambda j: result[j].entry_offset == view_off($B, $p, j)"
+               " and result[j].begin == hdr_field($B, self.structs.Dwarf_locview_pair, 'begin', view_off($B, $p, j))"
+               " and result[j].end == hdr_field($B, self.structs.Dwarf_locview_pair, 'end', view_off($B, $p, j)), 0, len(result))"]
+    may_raise = ["ELFParseError", "OverflowError", "AssertionError"]
+
+
+LPairT = Obj('LocationListsPair', _loc=LLT.extend(version=Const(4)), _loclists=LLT.extend(version=Const(5)))
+
+
+@contract(L, "LocationListsPair.get_location_list_at_offset", props=["C07"])
+class pair_get_location_list:
+    """both sections present: the version of the entry's unit selects the section"""
+    params = dict(self=LPairT, offset=Nat, die=Opt(DieArg))
+    requires = ["self._loc._max_addr == (2**32 - 1 if self._loc.structs.address_size == 4 else 2**64 - 1)",
+                "self._loclists._max_addr == (2**32 - 1 if self._loclists.structs.address_size == 4 else 2**64 - 1)"]
+    returns = ListOf(LElemT)
+    ensures = ["die is not None",
+               "die.cu.header.version < 5 or len(result) == len(loclist_at(self._loclists.stream.B, offset))",
+               "die.cu.header.version >= 5 or (word_at_addr(self._loc.stream.B, loc_off(self._loc.stream.B, offset, self._loc.structs.address_size, len(result)),"
+               " self._loc.structs.address_size) == 0)"]
+    may_raise = ["ELFParseError", "OverflowError", "DWARFError"]
+
+
+# ------------------------------------------------------------------ attribute classification
+FORMS = ('DW_FORM_addr', 'DW_FORM_block2', 'DW_FORM_block4', 'DW_FORM_data2', 'DW_FORM_data4', 'DW_FORM_data8',
+         'DW_FORM_string', 'DW_FORM_block', 'DW_FORM_block1', 'DW_FORM_data1', 'DW_FORM_flag', 'DW_FORM_sdata',
+         'DW_FORM_strp', 'DW_FORM_udata', 'DW_FORM_ref_addr', 'DW_FORM_ref1', 'DW_FORM_ref2', 'DW_FORM_ref4',
+         'DW_FORM_ref8', 'DW_FORM_ref_udata', 'DW_FORM_indirect', 'DW_FORM_sec_offset', 'DW_FORM_exprloc',
+         'DW_FORM_flag_present', 'DW_FORM_strx', 'DW_FORM_addrx', 'DW_FORM_ref_sup4', 'DW_FORM_strp_sup',
+         'DW_FORM_data16', 'DW_FORM_line_strp', 'DW_FORM_ref_sig8', 'DW_FORM_implicit_const', 'DW_FORM_loclistx',
+         'DW_FORM_rnglistx', 'DW_FORM_ref_sup8', 'DW_FORM_strx1', 'DW_FORM_strx2', 'DW_FORM_strx3', 'DW_FORM_strx4',
+         'DW_FORM_addrx1', 'DW_FORM_addrx2', 'DW_FORM_addrx3', 'DW_FORM_addrx4', 'DW_FORM_GNU_addr_index',
+         'DW_FORM_GNU_str_index', 'DW_FORM_GNU_ref_alt', 'DW_FORM_GNU_strp_alt')      # DWARF v5 table 7.6 + GNU
+AttrArg = Rec('AttributeValue', name=Str, form=Str, value=Nat)
+IS_FORM = "(" + " or ".join("attr.form == '%s'" % f for f in FORMS) + ")"
+IN_LOCLIST_ATTRS = "(" + " or ".join("attr.name == '%s'" % a for a in LOCLIST_ATTRS) + ")"
+IS_BLOCK = "(" + " or ".join("attr.form == '%s'" % f for f in BLOCK_FORMS) + ")"
+
+
+@contract(L, "LocationParser._attribute_is_loclistptr_class", props=["C07"])
+class is_loclistptr_class:
+    """every attribute the standard gives the classes exprloc/loclist (v5 table 7.5) is accepted"""
+    params = dict(attr=AttrArg)
+    returns = Bool
+    ensures = ["not %s or result == True" % IN_LOCLIST_ATTRS]
+
+
+@contract(L, "LocationParser._attribute_is_constant", props=["C07"])
+class attribute_is_constant:
+    """the constant class exception: only constant forms, and only for attributes that admit the
+    constant class next to exprloc/loclist (data_member_location from v3, upper_bound, count)"""
+    params = dict(attr=AttrArg, dwarf_version=U16)
+    requires = [IS_FORM]
+    returns = Bool
+    ensures = ["not result or (attr.form == 'DW_FORM_data1' or attr.form == 'DW_FORM_data2' or attr.form == 'DW_FORM_data4'"
+               " or attr.form == 'DW_FORM_data8' or attr.form == 'DW_FORM_sdata' or attr.form == 'DW_FORM_udata')",
+               "not result or attr.name == 'DW_AT_data_member_location' or attr.name == 'DW_AT_upper_bound' or attr.name == 'DW_AT_count'"]
+
+
+@contract(L, "LocationParser._attribute_has_loc_expr", props=["C07"])
+class attribute_has_loc_expr:
+    """an expression is held in form exprloc (v4+) or, before v4, in the block forms"""
+    params = dict(attr=AttrArg, dwarf_version=U16)
+    requires = [IS_FORM]
+    returns = Bool
+    ensures = ["result == (attr.form == 'DW_FORM_exprloc' or (dwarf_version < 4 and %s and attr.name != 'DW_AT_const_value'))" % IS_BLOCK]
+
+
+@contract(L, "LocationParser._attribute_has_loc_list", props=["C07"])
+class attribute_has_loc_list:
+    """a list reference is held in sec_offset / loclistx or, before v4, in the data forms (loclistptr
+    of DWARF 2/3); never for the constant class exception; never together with an expression"""
+    params = dict(attr=AttrArg, dwarf_version=U16)
+    requires = [IS_FORM]
+    returns = Bool
+    ensures = ["not (attr.form == 'DW_FORM_sec_offset' or attr.form == 'DW_FORM_loclistx') or %s or result == True" %
+               "(attr.name == 'DW_AT_data_member_location' or attr.name == 'DW_AT_upper_bound' or attr.name == 'DW_AT_count')",
+               "not (attr.form == 'DW_FORM_sec_offset' or attr.form == 'DW_FORM_loclistx') or result == True",
+               "not (dwarf_version < 4 and (attr.form == 'DW_FORM_data4' or attr.form == 'DW_FORM_data8') and %s"
+               " and attr.name != 'DW_AT_data_member_location') or result == True" % IN_LOCLIST_ATTRS,
+               "not result or attr.form == 'DW_FORM_sec_offset' or attr.form == 'DW_FORM_loclistx' or (dwarf_version < 4 and"
+               " (attr.form == 'DW_FORM_data1' or attr.form == 'DW_FORM_data2' or attr.form == 'DW_FORM_data4' or attr.form == 'DW_FORM_data8'))",
+               "not result or not (attr.form == 'DW_FORM_exprloc' or %s)" % IS_BLOCK]
+
+
+@contract(L, "LocationParser.attribute_has_location", props=["C07"])
+class attribute_has_location:
+    """an attribute of a location class holds location information exactly when its form is an
+    expression form or a list form for the unit's version"""
+    params = dict(attr=AttrArg, dwarf_version=U16)
+    requires = [IS_FORM]
+    returns = Bool
+    ensures = ["not (%s and attr.form == 'DW_FORM_exprloc') or result == True" % IN_LOCLIST_ATTRS,
+               "not (%s and attr.form == 'DW_FORM_loclistx') or result == True" % IN_LOCLIST_ATTRS,
+               "not (%s and attr.form == 'DW_FORM_sec_offset') or result == True" % IN_LOCLIST_ATTRS,
+               "not (%s and dwarf_version < 4 and %s) or result == True" % (IN_LOCLIST_ATTRS, IS_BLOCK),
+               "not result or attr.form == 'DW_FORM_exprloc' or attr.form == 'DW_FORM_sec_offset' or attr.form == 'DW_FORM_loclistx'"
+               " or dwarf_version < 4"]
+
+
+LocParserT = Obj('LocationParser', location_lists=LLT)
+
+
+@contract(L, "LocationParser.parse_from_attribute", props=["C07"])
+class parse_from_attribute:
+    """expression forms give the expression bytes, list forms the list at the offset the attribute
+    holds; anything else is rejected"""
+    params = dict(self=LocParserT, attr=Rec('AttributeValue', name=Str, form=Str, value=Nat), dwarf_version=U16, die=Opt(DieArg))
+    requires = [IS_FORM,
+                "self.location_lists._max_addr == (2**32 - 1 if self.location_lists.structs.address_size == 4 else 2**64 - 1)"]
+    returns = Any
+    ensures = ["not (attr.form == 'DW_FORM_exprloc') or (is_kind(result, 'LocationExpr') and result.loc_expr is attr.value)",
+               "not (attr.form == 'DW_FORM_sec_offset' or attr.form == 'DW_FORM_loclistx') or not is_kind(result, 'LocationExpr')"]
+    may_raise = ["ValueError", "ELFParseError", "OverflowError", "DWARFError"]
